@@ -1010,6 +1010,10 @@ func doReplay() {
 	if err != nil {
 		run.Fatal("%v", err)
 	}
+	if bytes.Contains(b, []byte("stateful-concurrent:")) {
+		// a program of the concurrent-submission part: re-explored by the scheduler-variant binary
+		ev.SchedReplay("C06_SCHED_BIN", run.Replay)
+	}
 	var f struct {
 		Key    string `json:"key"`
 		Replay replay `json:"replay"`
@@ -1277,6 +1281,10 @@ func main() {
 	fmt.Printf("C06 (b) done at %.1fs: %d index lists\n", elapsed(), len(bcases))
 
 	run.Set("outcome_histogram", outcomes)
+	// (f) the stateful object under CONCURRENT submission of distinct valid shares (cmd/c06s, scheduler variant)
+	run.SchedPart("C06_SCHED_BIN", "stateful_concurrent_submission",
+		"n=3,t=1 and n=4,t=2: the pool is filled sequentially up to t+1-k shares, then 2-3 threads each add one further distinct VALID share (TrustedAdd / VerifyAndAdd in all mixes), optionally next to a thread calling ThresholdSignature() or EnoughShares(); all schedules with <= 2 (thorough 3) preemptions for two threads and <= 1 (thorough 2) for three, over the RWMutex operations (modelled blocking) and the statement-level scheduling points of bls_thresholdsign.go; afterwards EnoughShares() is true, ThresholdSignature() succeeds and every signature returned during or after equals the stateless reconstruction",
+		"n=3,t=1 pre[0] [VerifyAndAdd(1,valid)] || [VerifyAndAdd(2,valid)]")
 	run.Set("distinct_outcomes", len(outcomes))
 	run.Assume(
 		"refbls (math/big curve arithmetic, ZCash G1 encoding, Flow-order G2 encoding, Lagrange at 0) self-tested at start-up",
